@@ -233,7 +233,7 @@ def enabled_lists(chk, P):
                 lists[v] = next(iter(tied))
         flags = {v for v, d in ldecl.items() if re.search(r"Array_<bool", str(d.get("ty", "")))}
         pushes = [(b, i, e) for b, i, e in fn.calls() if e.get("fn", "").endswith("::push_back") and var_of(call_obj(e)) in lists]
-        chk.judge(len(pushes) == 2 and sorted(lists.values()) == ["enabledNonParallelForces", "enabledParallelForces"], "REACHDEF", "%s:two-push-sites" % fname.split("::")[-1], fn.loc,
+        chk.shape(len(pushes) == 2 and sorted(lists.values()) == ["enabledNonParallelForces", "enabledParallelForces"], "REACHDEF", "%s:two-push-sites" % fname.split("::")[-1], fn.loc,
                   "parallel and non-parallel push sites (found %d; lists %s)" % (len(pushes), sorted(lists.values())))
         for b, i, e in pushes:
             a = call_args(e)
@@ -310,7 +310,7 @@ def prefill(chk, P):
             ok = bool(zs) and all(bb in gb for bb, ee in zs) and fn.path_exists((b, i), lambda q: q is zs[0][1], lambda q: False) is not None if zs else False
             chk.judge(ok, "PREFILL", "%s:g==0->setToZero" % fn.name.split("::")[-1], site, "setting the magnitude must zero the force cache when the new magnitude is 0")
     callers = [fn for fn in P.all_fns() if fn.name.startswith(G + "::") and any(True for _ in fn.calls(GI + "::setMobodIsImmune"))]
-    chk.judge(len(callers) >= 1, "PREFILL", "setMobodIsImmune-callers", "", "handle-level exclusion setter found")
+    chk.shape(len(callers) >= 1, "PREFILL", "setMobodIsImmune-callers", "", "handle-level exclusion setter found")
     for fn in callers:
         for b, i, e in fn.calls(GI + "::setMobodIsImmune"):
             site = "%s:%d" % (fn.file, e["line"])
